@@ -40,7 +40,7 @@ CHECKS = {
    ref="2/C13, 9.5", note="Trusted base: the hook runtime in src/rce_verif.rs (observer, snapshot, emulated stop, virtual clock, fork checkpoints). 'Clock fired' and 'nodes >= budget' are deliberately NOT taken as 'the engine has noticed the cut' (an engine that polls them every N nodes notices later and may legitimately write in between); those cuts are judged by the prefix oracle only. Quick tier: every second poll / check for the one large search.", engine="cutpoints"),
  "C14": dict(tech="exhaustive enumeration of depth limits N and of every cut point of node/time-limited searches, with a UCI info-line grammar and PV replay on the oracle; bounded session enumeration on the real executable",
    text="For each position every depth limit N (fresh and kept cache) must log info depth 1..N in order, each line valid UCI with a score and a non-empty PV that is legal move by move on the oracle, then exactly one bestmove; every node budget and clock point of a depth-3 search is checked for ordering, grammar and PV legality; whole self-play games (one go depth 4 per ply, cache kept across the positions of the game) are checked the same way, so stale cache entries of earlier searches are on the PV walk; go depth N is repeated on the real executable.",
-   ref="2/C14", note="""Trusted base: the hook runtime in src/rce_verif.rs (virtual clock, emulated stop, cache observer) and the assumption that it is the only source of time/stop nondeterminism in-process; single-threaded worker processes own their cache. Mate-distance correctness is not demanded.""", engine="cutpoints"),
+   ref="2/C14", note="""One sub-check is SAMPLED, not exhaustive, and labelled so in the evidence: an isready flood while the search thread prints ~100 iterations (both threads writing to stdout at once; a torn line is a definite violation, its absence only samples the OS scheduling). Trusted base: the hook runtime in src/rce_verif.rs (virtual clock, emulated stop, cache observer) and the assumption that it is the only source of time/stop nondeterminism in-process; single-threaded worker processes own their cache. Mate-distance correctness is not demanded.""", engine="cutpoints"),
  "C15": dict(tech="exhaustive enumeration of all token strings up to length 4 (5 on a reduced alphabet) over the UCI vocabulary through the real parser and command loop, plus all sessions of <=2 (3) representative lines on the real executable ended by quit and by end-of-input",
    text="Every token string up to the length bound is parsed by UCICommand::new under catch_unwind (a panic there kills the main thread) and a seventh of the non-search lines is executed through the real uci_loop; on the real executable every session of representative valid and malformed lines, each followed by isready, must answer readyok within 5 s and exit within 5 s of quit and of closed stdin.",
    ref="2/C15", note="FEN contents are not fuzzed (the property assumes valid FEN). Search-thread panics are counted but not judged by this property.", engine="sessions"),
